@@ -3,8 +3,11 @@ package rules
 import (
 	"fmt"
 	"go/ast"
+	"go/constant"
 	"go/token"
 	"go/types"
+
+	"golang.org/x/tools/go/ssa"
 
 	"regexlint/internal/core"
 )
@@ -110,5 +113,175 @@ func RDollarLit(c *core.Ctx) {
 	})
 	if n == 0 {
 		c.Unknown("scanDollar / name scan", fd.Pos(), "no call of scanCapname found in scanDollar")
+	}
+}
+
+// ---------------------------------------------------------------------------
+// R-NOWRAP: a caller's Duration is not enlarged before it is scaled down.
+// MatchTimeout may be anything up to math.MaxInt64 - 1 nanoseconds (MaxInt64
+// itself is the "no timeout" sentinel).  The deadline code therefore never
+// adds to, multiplies or left-shifts a value that still is the caller's
+// duration in nanoseconds — it first scales it down (>>, /) — unless the
+// operation stands behind an explicit overflow test against math.MaxInt64
+// (the saturating addDuration).
+// ---------------------------------------------------------------------------
+
+func RNoWrap(c *core.Ctx) {
+	c.Rule("R-NOWRAP", "in every function of package regexp2 that has a time.Duration parameter, no +, * or << is applied to a value that still is that parameter in nanoseconds (the parameter itself, a conversion or phi of it) except behind a branch on a comparison with math.MaxInt64 (minus something): such a sum wraps negative for a timeout near the top of the range and the deadline lies in the past", 2)
+	p := c.P
+	isDur := func(t types.Type) bool {
+		n, ok := t.(*types.Named)
+		return ok && n.Obj().Pkg() != nil && n.Obj().Pkg().Path() == "time" && n.Obj().Name() == "Duration"
+	}
+	nFn := 0
+	for _, fn := range p.ModuleFuncs() {
+		if core.FnPkgPath(fn) != core.PkgRoot || len(fn.Blocks) == 0 {
+			continue
+		}
+		raw := map[ssa.Value]bool{}
+		for _, prm := range fn.Params {
+			if isDur(prm.Type()) {
+				raw[prm] = true
+			}
+		}
+		if len(raw) == 0 {
+			continue
+		}
+		nFn++
+		name := core.SSAName(fn)
+		c.Visit(name)
+		for changed := true; changed; {
+			changed = false
+			for _, b := range fn.Blocks {
+				for _, ins := range b.Instrs {
+					v, ok := ins.(ssa.Value)
+					if !ok || raw[v] {
+						continue
+					}
+					switch x := ins.(type) {
+					case *ssa.ChangeType:
+						if raw[x.X] {
+							raw[v], changed = true, true
+						}
+					case *ssa.Convert:
+						if raw[x.X] {
+							raw[v], changed = true, true
+						}
+					case *ssa.Phi:
+						for _, e := range x.Edges {
+							if raw[e] {
+								raw[v], changed = true, true
+							}
+						}
+					case *ssa.BinOp:
+						// a sum / product of a raw value is still in nanoseconds
+						switch x.Op {
+						case token.ADD, token.SUB, token.MUL, token.SHL:
+							if raw[x.X] || raw[x.Y] {
+								raw[v], changed = true, true
+							}
+						}
+					}
+				}
+			}
+		}
+		isMax := func(v ssa.Value) bool {
+			var has func(v ssa.Value, d int) bool
+			has = func(v ssa.Value, d int) bool {
+				if d > 3 {
+					return false
+				}
+				switch x := v.(type) {
+				case *ssa.Const:
+					if x.Value != nil && x.Value.Kind() == constant.Int {
+						if i, ok := constant.Int64Val(x.Value); ok && i == 1<<63-1 {
+							return true
+						}
+					}
+				case *ssa.BinOp:
+					return has(x.X, d+1) || has(x.Y, d+1)
+				case *ssa.Convert:
+					return has(x.X, d+1)
+				case *ssa.ChangeType:
+					return has(x.X, d+1)
+				}
+				return false
+			}
+			return has(v, 0)
+		}
+		guarded := func(b *ssa.BasicBlock) bool {
+			// some block ends in a branch on a comparison with math.MaxInt64 and sends one
+			// of its outcomes somewhere else: b is reachable from one successor only
+			reach := func(from, to *ssa.BasicBlock) bool {
+				seen := map[*ssa.BasicBlock]bool{}
+				var dfs func(x *ssa.BasicBlock) bool
+				dfs = func(x *ssa.BasicBlock) bool {
+					if x == to {
+						return true
+					}
+					if seen[x] {
+						return false
+					}
+					seen[x] = true
+					for _, sc := range x.Succs {
+						if dfs(sc) {
+							return true
+						}
+					}
+					return false
+				}
+				return dfs(from)
+			}
+			for _, d := range fn.Blocks {
+				if len(d.Instrs) == 0 || len(d.Succs) != 2 {
+					continue
+				}
+				ifi, ok := d.Instrs[len(d.Instrs)-1].(*ssa.If)
+				if !ok {
+					continue
+				}
+				cmp, ok := ifi.Cond.(*ssa.BinOp)
+				if !ok || !(isMax(cmp.X) || isMax(cmp.Y)) {
+					continue
+				}
+				r0, r1 := reach(d.Succs[0], b), reach(d.Succs[1], b)
+				if r0 != r1 {
+					return true
+				}
+			}
+			return false
+		}
+		n := 0
+		var bad []string
+		var badPos token.Pos
+		for _, b := range fn.Blocks {
+			for _, ins := range b.Instrs {
+				x, ok := ins.(*ssa.BinOp)
+				if !ok {
+					continue
+				}
+				switch x.Op {
+				case token.ADD, token.MUL, token.SHL:
+					if !(raw[x.X] || raw[x.Y]) {
+						continue
+					}
+					n++
+					if !guarded(b) {
+						bad = append(bad, x.String())
+						if !badPos.IsValid() {
+							badPos = x.Pos()
+						}
+					}
+				}
+			}
+		}
+		if len(bad) > 0 {
+			c.Bad(name+" / the caller's duration is not enlarged before it is scaled down", badPos, "`%s` is computed on the duration in nanoseconds without an overflow test: for a timeout just below math.MaxInt64 it wraps negative", bad[0])
+		} else {
+			c.OK(name+" / the caller's duration is not enlarged before it is scaled down", fn.Pos(), "%d enlarging operations on the raw duration, all behind a test against math.MaxInt64", n)
+		}
+	}
+	if nFn == 0 {
+		c.Anchor("functions of package regexp2 with a time.Duration parameter")
 	}
 }
